@@ -141,7 +141,9 @@ func (ex *Exec) bitop(op string, a, b *smt.Term, t types.Type) (*smt.Term, bool)
 	}
 	// symbolic-symbolic: expand bit by bit for declared/narrow widths
 	width := uint(0)
-	if w, ok := ex.bitsFor(t); ok {
+	if w, ok := ex.bitsDecl["!force"]; ok {
+		width = uint(w)
+	} else if w, ok := ex.bitsFor(t); ok {
 		width = uint(w)
 	} else if uns && bitsOf(t) <= 16 {
 		width = bitsOf(t)
